@@ -66,6 +66,36 @@ M = {
     "pareto-2d-strictness": ("optuna/study/_multi_objective.py",
         "def _is_pareto_front_2d(", "def _is_pareto_front_2d_orig(", ["C12"],
         [("def _is_pareto_front_2d_orig(", "def _is_pareto_front_2d(unique_lexsorted_loss_values):\n    r = _is_pareto_front_2d_orig(unique_lexsorted_loss_values)\n    r[-1:] = True\n    return r\n\n\ndef _is_pareto_front_2d_orig(")]),
+    # ---- C20 -------------------------------------------------------------------------------
+    "trial-unfix-private-copy": ("optuna/trial/_trial.py",
+        "        self._cached_frozen_trial = copy.deepcopy(self.storage.get_trial(self._trial_id))",
+        "        self._cached_frozen_trial = self.storage.get_trial(self._trial_id)", ["C20"]),
+    "mem-set-param-in-place": ("optuna/storages/_in_memory.py",
+        "            trial = copy.copy(trial)\n            trial.params = copy.copy(trial.params)\n            trial.params[param_name]",
+        "            trial.params[param_name]", ["C20"]),
+    "mem-get-all-trials-returns-internal-list": ("optuna/storages/_in_memory.py",
+        "                # This copy is required for the replacing trick in `set_trial_xxx`.\n                trials = copy.copy(trials)",
+        "                pass", ["C20"]),
+    "study-user-attrs-no-deepcopy": ("optuna/study/study.py",
+        "        return copy.deepcopy(self._storage.get_study_user_attrs(self._study_id))",
+        "        return self._storage.get_study_user_attrs(self._study_id)", ["C20"]),
+    "journal-user-attr-in-place": ("optuna/storages/journal/_storage.py",
+        "            trial = copy.copy(self._trials[trial_id])\n            trial.user_attrs = {**copy.copy(trial.user_attrs), **log[\"user_attr\"]}\n            self._trials[trial_id] = trial",
+        "            self._trials[trial_id].user_attrs.update(log[\"user_attr\"])", ["C20"]),
+    # ---- C02 -------------------------------------------------------------------------------
+    "tell-state-write-outside-finally": ("optuna/study/_tell.py",
+        "    try:\n        # Sampler defined trial post-processing.\n        study = pruners._filter_study(study, frozen_trial)\n        study.sampler.after_trial(study, frozen_trial, state, values)\n    finally:\n        study._storage.set_trial_state_values(frozen_trial._trial_id, state, values)",
+        "    study = pruners._filter_study(study, frozen_trial)\n    study.sampler.after_trial(study, frozen_trial, state, values)\n    study._storage.set_trial_state_values(frozen_trial._trial_id, state, values)", ["C02"]),
+    "tell-drop-length-check": ("optuna/study/_tell.py",
+        "    if len(study.directions) != len(values):\n        return (", "    if False:\n        return (", ["C02"]),
+    "optimize-callbacks-before-tell-result": ("optuna/study/_optimize.py",
+        "    if (\n        frozen_trial.state == TrialState.FAIL\n        and func_err is not None\n        and not isinstance(func_err, catch)\n    ):\n        raise func_err",
+        "    if (\n        frozen_trial.state == TrialState.FAIL\n        and func_err is not None\n        and not isinstance(func_err, (ValueError,) + tuple(catch))\n    ):\n        raise func_err", ["C02"]),
+    "tell-unfix-float-conversion": ("optuna/study/_tell.py",
+        "        except Exception:\n            # E.g., ValueError, TypeError, OverflowError or anything raised by `__float__`.",
+        "        except (ValueError, TypeError):", ["C02"]),
+    "ask-unfix-fail-on-sampler-error": ("optuna/study/study.py",
+        "            self._storage.set_trial_state_values(trial_id, TrialState.FAIL)\n            raise", "            raise", ["C02"]),
     # ---- C05 -------------------------------------------------------------------------------
     "file-unfix-torn-tail": ("optuna/storages/journal/_file.py",
         "            self._drop_unterminated_tail()\n", "", ["C05"]),
